@@ -542,14 +542,16 @@ def replay(path):
 def main(tier):
     chk = Check("C20", "exploration", tier, quick_s=150, thorough_s=1200)
     chk.clean_replays()
-    chk.rule = ("SRE strata (A = the 8 atoms \"a\" \"b\" any (/ \"ab\") (~ \"a\") \"\" bol eol; D1 = every unary operator "
-                "* + ? (= 2 x) (** 1 2 x) ($ x) (-> n x) (w/nocase x) over A and every binary operator (: x y) (or x y) over AxA; "
-                "D2u = unary(D1); D2m = binary(D1,A) u binary(A,D1); D2f = binary(D1,D1); D3u = unary(D2u); X = depth<=2 terms "
-                "mentioning e-acute) each enumerated completely x every subject of the stated set (S4 = all strings of length "
-                "<= 4 over {a,b,newline}, S56 = all of length 5..6, S3 = length <= 3, S4X = S4 + 15 fixed strings with A / "
-                "e-acute); see coverage.blocks for the sets this run completed.  A pair (SRE, subject) is counted "
-                "non-trivial when, among all substrings of the subject read in place, at least one is in L(SRE) and at "
-                "least one is not (every pair is distinct by construction)")
+    chk.rule = ("SRE strata, each enumerated completely: A = the 8 leaves \"a\" \"b\" any (/ \"ab\") (~ \"a\") \"\" bol eol; D1 = every unary "
+                "operator * + ? (= 2 x) (** 1 2 x) ($ x) (-> n x) (w/nocase x) over A and every binary operator (: x y) (or x y) "
+                "over AxA; D2u = unary(D1); D2m = binary(D1,A) u binary(A,D1); D2f = binary(D1,D1) [A+D1+D2u+D2m+D2f = all SREs "
+                "of depth <= 2]; D3u = unary(D2u) (the depth-3 cap: operator chains over a depth-1 core); X = depth<=2 terms "
+                "mentioning e-acute / E-acute; NC = 8 slow-to-compile (w/nocase (or ..class..)) terms.  Subject sets, each "
+                "complete: S4 = all 121 strings of length <= 4 over {a,b,newline}; S5 / S56 = all of length 5 / 5..6; "
+                "S4X = S4 + 15 fixed strings with A, B, e-acute, E-acute; S2X, X = length <= 2 + the 15.  quick = "
+                "(A,D1,D2u,D2m) x S4X + X; thorough adds D2f x S4, D3u x S4, (A,D1) x S56, D2u x S5, NC; coverage.blocks lists "
+                "what this run completed.  A pair (SRE, subject) is counted non-trivial when, among all substrings of the "
+                "subject read in place, at least one is in L(SRE) and at least one is not (every pair is distinct by construction)")
     chk.assumptions = [
         "SRFI 115 bol/eol: bol holds at index 0 and after a newline, eol at the end and before a newline, relative to the whole subject",
         "w/nocase on a complemented class folds the positive members first ((w/nocase (~ \"a\")) rejects a and A), SRFI 115 'expansion is applied at the terminal level'",
@@ -626,8 +628,10 @@ def main(tier):
             for b in blocks if not b["completed"] and b["jobs_done"]]
     chk.cov["bound_completed"] = "; ".join(comp) + ((" | partial: " + "; ".join(part)) if part else "")
     chk.cov["variants"] = [variant]
+    seen_strata = set()
     for b in blocks:
-        if b["sres_excluded_slow_compile"]:
+        if b["sres_excluded_slow_compile"] and b["stratum"] not in seen_strata:
+            seen_strata.add(b["stratum"])
             chk.exclude("%s: (w/nocase .. (or <classes incl. a co-finite one>) ..), ~100 s compile each%s" % (
                 b["stratum"], "" if tier == "quick" else "; the depth-2 ones run as block NC"), b["sres_excluded_slow_compile"])
     if oracle_bad:
